@@ -68,10 +68,55 @@ def rule_g1(ctx, F):
     g = ctx.need_fn(F, "ts_parser_set_included_ranges", "G1")
     if g:
         r = [e for pt, e in g.points() if e.get("k") == "ret"]
+        calls_ = [pt for pt, n in find(g, "ts_lexer_set_included_ranges(&self->lexer, ranges, count)")]
+        falses = [pt for pt, e in g.points() if e.get("k") == "ret" and strip(e["e"]).get("k") == "int" and strip(e["e"]).get("v") == 0]
+        trues = [pt for pt, e in g.points() if e.get("k") == "ret" and strip(e["e"]).get("k") == "int" and strip(e["e"]).get("v") == 1]
         if len(r) == 1 and M(g).match("ts_lexer_set_included_ranges(&self->lexer, ranges, count)", r[0]["e"]):
             ctx.ok("G1", "ts_parser_set_included_ranges:delegates", "the public setter returns the lexer's verdict")
+        elif calls_ and len(r) == len(falses) + len(trues) and trues:
+            # spelled out: `if (!ts_lexer_set_included_ranges(..)) return false; …; return true;`
+            ctx.gate("G1", g, trues, [("the setter answers true only if the lexer accepted the list", "ts_lexer_set_included_ranges(&self->lexer, ranges, count)", True)], accept_desc="returning true")
+            ctx.gate("G1", g, falses, [("…and false only if it refused", "ts_lexer_set_included_ranges(&self->lexer, ranges, count)", False)], accept_desc="returning false")
         else:
             ctx.bad("G1", "ts_parser_set_included_ranges:delegates", "ts_parser_set_included_ranges no longer returns ts_lexer_set_included_ranges(&self->lexer, ranges, count)")
+
+
+DIFFERENCE_WRITERS = {
+    "ts_parser_new": "initialises the empty list",
+    "ts_parser_delete": "frees it",
+    "ts_parser_parse": "computes the differences between the old tree's ranges and the lexer's when a parse starts (not when it resumes)",
+}
+
+
+def rule_w3(ctx, F):
+    """W3: the range differences of a parse in progress belong to that parse.  ts_parser_parse computes them once, when a
+    parse with an old tree starts; a suspended parse that is resumed still needs them to refuse old nodes that overlap
+    text newly included or excluded.  Only ts_parser_new / _delete / _parse write the list or its cursor — in particular
+    the range setter, which embedders call before *every* parse call, leaves them alone."""
+    from cstores import stores
+    seen = {}
+    for fn in F.fn_list:
+        n = 0
+        for pt, node, l, op in stores(fn):
+            t = show(l)
+            if "self->included_range_difference" in t:
+                n += 1
+        for pt, c in fn.calls():
+            if callee_name(c) in ("ts_range_array_intersects",):
+                continue
+            for a in c.get("a", []):
+                t = show(a)
+                if t.startswith("&self->included_range_difference"):
+                    n += 1
+        if n:
+            seen[fn.name] = n
+    ctx.floor("functions writing the parser's range differences", len(seen), 3)
+    for name, n in sorted(seen.items()):
+        if name in DIFFERENCE_WRITERS:
+            ctx.ok("W3", "included_range_differences:writer:" + name, "%s %s (%d write(s))" % (name, DIFFERENCE_WRITERS[name], n), nontrivial=False)
+        else:
+            ctx.bad("W3", "included_range_differences:writer:" + name, "%s writes the parser's included_range_differences / its index (%d write(s)); it is not one of %s: a suspended incremental parse that is resumed "
+                    "afterwards reuses old nodes over text whose inclusion changed" % (name, n, sorted(DIFFERENCE_WRITERS)), {"function": name})
 
 
 def rule_w1(ctx, F):
@@ -207,6 +252,7 @@ def run(ctx):
         rule_w1(ctx, F)
         rule_p1(ctx, F)
         rule_w2(ctx, F)
+        rule_w3(ctx, F)
         rule_progress(ctx, F)
         # the included-range difference that invalidates reuse of newly excluded / included text (shared with C04)
         import C04
